@@ -304,7 +304,7 @@ func init() {
 			return fw.Plan{
 				Level:            "exploration",
 				CrashIsViolation: true,
-				Rule:             "each case runs 70 scripts through vm.ExecuteContext (debug=false) in an environment holding one value of every constructible kind, types defined with make(type ...) (of numbers, strings, lists, maps, functions, structs, channels, pointers, durations, error), plus Go functions over such values (identity, typed scalars/slices/maps/pointers/channels/functions, variadic, multi-result, error-returning incl. a nil error or nil non-empty interface as the single result, nil map/slice/pointer/function/channel results, panicking with error/string/arbitrary value, callbacks): 15% token soup from the lexer's alphabet, 45% grammar-wild templates (every production with operands chosen ignoring types, degenerate forms; 14% of the operands are generated: function literals of every parameter-list shape incl. variadic without a named parameter and duplicate names, numerals as source literals and as strings with fractions, exponents of every magnitude up to beyond the int32/int64 range and digit strings of up to 400 digits, typed literals/make/new over random type expressions nested three deep - slice/map/chan/pointer/struct/defined/dotted/undefined names, including map keys reflect cannot hash and struct fields that are lower-case or duplicated; dedicated templates put function literals, numerals and types in every position they can be written, compare/convert/index with numerals, use the zero value of the type of any value, and call Go methods through member syntax), 30% mutations of the repository's own scripts, 10% mutated generated programs; case 0 replays every input that crashed the pinned tree plus one representative of each generated class. The environment also holds unsigned numbers of every width (elements of []uint64/[]uint32/[]uint/[]byte built by the script, bytes of toByteSlice, make(uint..); host-bound uint/uint8/uint16/uint32/uint64/uintptr/int8/int16/float32 numbers, []byte, []uint16), strings with multi-byte characters and a host-bound string that is not valid UTF-8; templates put them under every operator, in every position a number / a string is used, with indices at and next to the byte-length and character-count boundaries; compound assignments to entries of nil typed maps reached through containers; function literals with up to hundreds of parameters. Phase goroutines: the in-process scripts, plus per case one storm in a FRESH child process (every construct shape is new to it): 4..16 goroutines started by go wait on one channel, are released together by close() and each evaluate 40..100 constructs of distinct shapes (function literals/declarations with 0..90 parameters, variadic or not, called or not, nested in modules and lists; struct/map/chan/slice/defined types), or - one storm in four - bind a module to names while the other half assign plain variables of the scopes above it; the workers share nothing but the two channels. Phase cross (exhaustive): every unsigned operand x every binary operator x every partner (all unsigned ones, every other number kind, one value of each other kind) in both orders; the ordering operators in every position an expression is evaluated from (top level, go/defer arguments, conditions, function bodies, literals); unary/increment/compound-assignment/conversion/index/size uses of every unsigned operand; and for each of 12 strings (9 with multi-byte characters, an ASCII one and the empty one for comparison, 1 host-bound that is not valid UTF-8) every index from -1 to len(s)+1 (as a literal and computed from the script's own len) in every read, slice (all neighbouring bounds), store, increment and loop form. Monitor: recover() around the call (a Go panic reaching the caller), the parent's classifier over a worker death (panic in a script goroutine, fatal error), and for every returned value a goroutine that keeps it - and up to 7 nil interface values reachable in it - in local variables while its stack is moved, so that a corrupted value ends the worker with the runtime's 'invalid pointer found on stack' while its input is in flight. Non-trivial = the script parsed; distinct = distinct source text." + c01RuleR5 + c01RuleR6,
+				Rule:             "each case runs 70 scripts through vm.ExecuteContext (debug=false) in an environment holding one value of every constructible kind, types defined with make(type ...) (of numbers, strings, lists, maps, functions, structs, channels, pointers, durations, error), plus Go functions over such values (identity, typed scalars/slices/maps/pointers/channels/functions, variadic, multi-result, error-returning incl. a nil error or nil non-empty interface as the single result, nil map/slice/pointer/function/channel results, panicking with error/string/arbitrary value, callbacks): 15% token soup from the lexer's alphabet, 45% grammar-wild templates (every production with operands chosen ignoring types, degenerate forms; 14% of the operands are generated: function literals of every parameter-list shape incl. variadic without a named parameter and duplicate names, numerals as source literals and as strings with fractions, exponents of every magnitude up to beyond the int32/int64 range and digit strings of up to 400 digits, typed literals/make/new over random type expressions nested three deep - slice/map/chan/pointer/struct/defined/dotted/undefined names, including map keys reflect cannot hash and struct fields that are lower-case or duplicated; dedicated templates put function literals, numerals and types in every position they can be written, compare/convert/index with numerals, use the zero value of the type of any value, and call Go methods through member syntax), 30% mutations of the repository's own scripts, 10% mutated generated programs; case 0 replays every input that crashed the pinned tree plus one representative of each generated class. The environment also holds unsigned numbers of every width (elements of []uint64/[]uint32/[]uint/[]byte built by the script, bytes of toByteSlice, make(uint..); host-bound uint/uint8/uint16/uint32/uint64/uintptr/int8/int16/float32 numbers, []byte, []uint16), strings with multi-byte characters and a host-bound string that is not valid UTF-8; templates put them under every operator, in every position a number / a string is used, with indices at and next to the byte-length and character-count boundaries; compound assignments to entries of nil typed maps reached through containers; function literals with up to hundreds of parameters. Phase goroutines: the in-process scripts, plus per case one storm in a FRESH child process (every construct shape is new to it): 4..16 goroutines started by go wait on one channel, are released together by close() and each evaluate 40..100 constructs of distinct shapes (function literals/declarations with 0..90 parameters, variadic or not, called or not, nested in modules and lists; struct/map/chan/slice/defined types), or - one storm in four - bind a module to names while the other half assign plain variables of the scopes above it; the workers share nothing but the two channels. Phase cross (exhaustive): every unsigned operand x every binary operator x every partner (all unsigned ones, every other number kind, one value of each other kind) in both orders; the ordering operators in every position an expression is evaluated from (top level, go/defer arguments, conditions, function bodies, literals); unary/increment/compound-assignment/conversion/index/size uses of every unsigned operand; and for each of 12 strings (9 with multi-byte characters, an ASCII one and the empty one for comparison, 1 host-bound that is not valid UTF-8) every index from -1 to len(s)+1 (as a literal and computed from the script's own len) in every read, slice (all neighbouring bounds), store, increment and loop form. Monitor: recover() around the call (a Go panic reaching the caller), the parent's classifier over a worker death (panic in a script goroutine, fatal error), and for every returned value a goroutine that keeps it - and up to 7 nil interface values reachable in it - in local variables while its stack is moved, so that a corrupted value ends the worker with the runtime's 'invalid pointer found on stack' while its input is in flight. Non-trivial = the script parsed; distinct = distinct source text." + c01RuleR5 + c01RuleR6 + c01RuleR10,
 				Assumptions: append([]string{"stack/memory exhaustion and concurrent map access between script goroutines are classified from the runtime's fatal-error text and excluded, as the statement says",
 					"allocation sizes between 10^4 and 2^48 and range() over huge spans are never generated (they would exhaust memory, which is outside the guarantee)",
 					"the packages tables the repository bundles are emptied in this worker: import() cannot reach os.Exit/exec/sockets; the one package it can reach is registered by the engine (c01_r6.go)",
@@ -314,10 +314,10 @@ func init() {
 					"storm children: a child that dies with 'fatal error: concurrent map ...' is a violation whatever frames it died in, because the storm's goroutines share no script container by construction (every name they assign is a parameter or a var of their own; the scope storm shares only plain variables and a module); stack/memory exhaustion of a child is excluded; a child that is killed by the 120 s watchdog or dies without a Go fault report is inconclusive. Whether two goroutines really overlap is up to the scheduler: a silent storm proves nothing about that schedule, a dead child is a counterexample",
 					"host-bound unsigned values that could become a size or a repeat count are below 10^4 or beyond the int64 range",
 					"pending repairs of the pinned tree (c01PendingFix_* constants in c01_r4.go, /tmp/strengthen/C01-r4-genuine.md): NaN keys in compound assignments to entries of nil typed maps, and function literals with more than 100 parameters (126 is where reflect.FuncOf panics; mutations may add a few) are kept out of the generated domain until /repo is repaired",
-					"the moved-stack observation needs the runtime to start the observing goroutine with a stack smaller than 192KB (the default); otherwise it learns nothing and stays silent"}, append(c01AssumptionsR5, c01AssumptionsR6...)...),
+					"the moved-stack observation needs the runtime to start the observing goroutine with a stack smaller than 192KB (the default); otherwise it learns nothing and stays silent"}, append(c01AssumptionsR5, append(c01AssumptionsR6, c01AssumptionsR10...)...)...),
 				Phases: append([]fw.Phase{{Name: "fuzz", Cases: n, Chunk: 25, TimeoutS: 600, MemMB: 6144},
 					{Name: "goroutines", Cases: n / 10, Chunk: 5, TimeoutS: 600, MemMB: 6144},
-					{Name: "cross", Cases: c01CrossSlices, Chunk: 2, TimeoutS: 600, MemMB: 6144, Exhaust: true}}, c01PhasesR8(tier)...),
+					{Name: "cross", Cases: c01CrossSlices, Chunk: 2, TimeoutS: 600, MemMB: 6144, Exhaust: true}}, append(c01PhasesR8(tier), c01PhasesR10(tier)...)...),
 			}
 		},
 		Init: func(w *wk.Worker) {
@@ -337,7 +337,7 @@ func init() {
 				c01RunCross(c)
 				return
 			}
-			if c01RunR8(c) {
+			if c01RunR8(c) || c01RunR10(c) {
 				return
 			}
 			if c.Phase == "goroutines" {
